@@ -66,6 +66,19 @@ def comparators(P, R, rule='C19.ARITH.1'):
                             bad.append(sx(x))
             R.ob(rule, not bad, s, 'comparator %s returns %s' % (f.name, 'a three-way result that cannot overflow' if not bad else 'the difference %s, which has the wrong sign on overflow' % bad[0]),
                  key='return:%s' % ('sub' if bad else 'ok'))
+    # the stock integer comparator orders its keys as the signed ints they are (ids may be negative)
+    ci = P.fn('set_compare_int')
+    if ci is not None:
+        ok_t = True
+        seen_t = set()
+        for s in ci.sites():
+            for ex in rules.event_exprs(s.ev):
+                for x in walk(ex):
+                    if x.get('k') == 'un' and x['op'] == '*' and is_var(x['e']) and x['e'].get('sc') == 'local':
+                        t = x['e'].get('t', '')
+                        pointee = t[:t.rfind('*')].replace('const', '').strip() if '*' in t else t
+                        seen_t.add(pointee)
+        R.ob(rule, bool(seen_t) and seen_t <= {'int'}, ci, 'set_compare_int reads its keys as int (reads them as %s)' % sorted(seen_t), key='int-keys')
     R.floor(rule, 4, 'comparator returns')
 
 
@@ -386,6 +399,38 @@ def lower_bound_link(P, R, rule='C19.TAB.1'):
     R.floor(rule, 2)
 
 
+def root_checked(P, R, rule='C19.GRD.2'):
+    """An empty set has no root: wherever the container looks through `set->root` (its links, its data) the root was
+    tested non-null in that function on the way - the splay's answer for an empty set is not a licence to look."""
+    n = 0
+    for f in P.unit_fns(UNIT):
+        if not f.name.startswith('set_'):
+            continue
+        aliases = set()
+        for t in f.sites():
+            v = t.ev['lhs']['name'] if t.ev['k'] == 'store' and is_var(t.ev.get('lhs')) else t.ev.get('var') if t.ev['k'] == 'decl' else None
+            if v and f.single_def(v) and is_field(f.single_def(v)[1], 'root'):
+                aliases.add(v)
+        for s in f.sites():
+            hit = None
+            for ex in rules.event_exprs(s.ev):
+                for x in walk(ex):
+                    if x.get('k') == 'mem' and x.get('arrow') and (is_field(x.get('base'), 'root') or (is_var(x.get('base')) and x['base']['name'] in aliases)):
+                        hit = x
+                    if x.get('k') == 'callref' and x.get('callee') == 'set_node_data' and x['args'] and is_field(x['args'][0], 'root'):
+                        hit = x
+            if s.ev['k'] == 'call' and s.ev.get('callee') == 'set_node_data' and s.ev['args'] and is_field(s.ev['args'][0], 'root'):
+                hit = s.ev['args'][0]
+            if hit is None:
+                continue
+            n += 1
+            gs = f.guards(s.bid)
+            ok = any((is_field(g[0], 'root') or (is_var(g[0]) and g[0]['name'] in aliases)) and g[1] == '!=' and const_of(g[2]) == 0 for g in gs)
+            # set_splay itself: its loop works on a local copy of the root after the emptiness test
+            R.ob(rule, ok, s, '%s looks through set->root (%s) only after testing it non-null' % (f.name, sx(hit)), key='root-deref:%s' % f.name)
+    R.floor(rule, 1)
+
+
 def container_rules(P, R, prefix='C19'):
     """All set-container rules under a given id prefix (C10 re-uses the pairing subset)."""
     comparators(P, R, prefix + '.ARITH.1')
@@ -397,6 +442,7 @@ def container_rules(P, R, prefix='C19'):
     use_after_dispose(P, R, disp, prefix + '.UAF.1')
     splay_decides(P, R, prefix + '.MPT.2')
     lower_bound_link(P, R, prefix + '.TAB.1')
+    root_checked(P, R, prefix + '.GRD.2')
 
 
 def run(P, R, tier):
